@@ -127,6 +127,8 @@ def build_state(case):
         return tuple(complex(t) for t in v)
     if c == "real" and np.all(v.imag == 0):
         return v.real.copy()
+    if c == "column":
+        return v.reshape(-1, 1)          # the state as a 2^n x 1 column (a slice of a matrix of states): the value comes back as a 1 x 1 array
     return v
 
 
@@ -137,6 +139,8 @@ def impl_expect(case):
     try:
         val = f(op, build_state(case))
         val = np.asarray(val)
+        if case.get("container") == "column" and val.shape == (1, 1):
+            val = val[0, 0]
         if val.shape != ():
             return {"raised": None, "shape": list(val.shape)}
         out = {"raised": None, "value": complex(val), "flag": bool(op.is_hermitian())}
@@ -603,7 +607,7 @@ def gen_expect(tier, rng):
             for kind in ("dyadic", "normalised", "basis", "uniform", "real"):
                 psi = rand_state(rng, d, kind)
                 c = {"op": "vqe.expect", "n": n, "tag": tag, "kind": kind, "strings": strings, "psi": [cq(v) for v in psi],
-                     "container": rng.choice(["ndarray", "list", "tuple", "real"])}
+                     "container": rng.choice(["ndarray", "list", "tuple", "real", "ndarray", "column"])}
                 if rng.random() < 0.5:
                     u = rng.choice(PHASES) if rng.random() < 0.7 else complex(math.cos(a := rng.uniform(0, 7)), math.sin(a))
                     c["phase"] = cq(u)
